@@ -414,15 +414,28 @@ def image_case(spec):
         img = s.image()
         params = flux.FluxParams(rng, enc, spt)
         style = rng.choice(['same-sector-every-track', 'highest-record-every-track', 'random', 'random', 'one-track',
-                            'double-fault-every-track'])
+                            'double-fault-every-track', 'relabel-cylinder', 'relabel-cylinder'])
         damaged = set()
         packed = {}
+        relabel_track = rng.randrange(0, max(1, tracks - 1))
+        relabel_from = rng.randrange(1, spt)
         for t in range(tracks):
             secs = {r: img[(t * spt + r) * 256:(t * spt + r + 1) * 256] for r in range(spt)}
             order = params.order(rng, spt, t)
             fn = flux.fm_track if enc == 'fm' else flux.mfm_track
+            ido = None
+            if style == 'relabel-cylinder' and tracks >= 3 and t == relabel_track:
+                # records k.. of this track carry the next cylinder number in their (CRC-valid) ID fields, and the
+                # next track lacks exactly those records: every track still shows consecutive record numbers
+                ido = {r_: (t + 1, 0, r_, 1) for r_ in range(relabel_from, spt)}
+                for r_ in range(relabel_from, spt):
+                    damaged.add((t, r_))
+                    damaged.add((t + 1, r_))
+            if style == 'relabel-cylinder' and tracks >= 3 and t == relabel_track + 1:
+                secs = {r_: v for r_, v in secs.items() if r_ < relabel_from}
+                order = [r_ for r_ in order if r_ < relabel_from]
             tr = fn(t, 0, secs, order=order, gap1=params.gap1, gap3=params.gap3, sync=params.sync, gap2=params.gap2,
-                    index_mark=params.index_mark, gap4_min=params.gap4)
+                    index_mark=params.index_mark, gap4_min=params.gap4, id_override=ido)
             cells = bytearray(tr.c)
             ops = []
             victims = []
